@@ -13,6 +13,7 @@ var (
 	errListeningAddressInvalid       = errors.New("turn: RelayAddressGenerator has invalid ListeningAddress")
 	errRelayAddressGeneratorUnset    = errors.New("turn: RelayAddressGenerator in RelayConfig is unset")
 	errMaxRetriesExceeded            = errors.New("turn: max retries exceeded")
+	errRelayPortInUse                = errors.New("turn: relay port is in use by another allocation")
 	errMaxPortNotZero                = errors.New("turn: MaxPort must be not 0")
 	errMinPortNotZero                = errors.New("turn: MaxPort must be not 0")
 	errNilConn                       = errors.New("turn: conn cannot not be nil")
